@@ -12,6 +12,25 @@
 
 using namespace vh;
 
+// ---- message-level log (--msg): how the library's message types are described in the vmpi message log ----------------
+static bool g_msg = false;
+static long g_den = 1;
+namespace vmpi {
+template<class U> struct describe<parmcb::SpVecGF2<U>> {
+    static std::string json(const parmcb::SpVecGF2<U> &v) { std::ostringstream o; o << "["; bool f = true; for (auto it = v.begin(); it != v.end(); ++it) { o << (f ? "" : ",") << (long) *it; f = false; } o << "]"; return o.str(); }
+};
+template<class G, class WM> struct describe<parmcb::SerializableMinOddCycle<G, WM>> {
+    static std::string json(const parmcb::SerializableMinOddCycle<G, WM> &c) {
+        std::ostringstream o; o << "{\"ok\":" << (c.exists ? "true" : "false") << ",\"w\":";
+        if (!c.exists) o << -1; else { long ri, fr; vh::scaled((double) c.weight, g_den, ri, fr); o << (fr == 0 ? ri : -2); }
+        o << ",\"edges\":["; bool f = true; for (auto e : c.edges) { o << (f ? "" : ",") << (e > 1000000 ? -1 : (long) e); f = false; } o << "]}"; return o.str(); }
+};
+template<class G> struct describe<std::vector<parmcb::SerializableCandidateCycle<G>>> {
+    static std::string json(const std::vector<parmcb::SerializableCandidateCycle<G>> &v) {
+        std::ostringstream o; o << "["; bool f = true; for (auto &c : v) { o << (f ? "" : ",") << "[" << (long) c.v << "," << (c.e > 1000000 ? -1 : (long) c.e) << "]"; f = false; } o << "]"; return o.str(); }
+};
+}
+
 template<class Graph> std::size_t probe_node_size() {
     Graph g(2);
     varena::t_nrec = 0; varena::t_recording = true;
@@ -59,7 +78,7 @@ template<class Graph> struct MpiRun {
             else if (layout != "identity") for (size_t i = m; i > 1; i--) std::swap(perms[(size_t) r][i - 1], perms[(size_t) r][rnd() % i]);
         }
         std::vector<RankOut> outs((size_t) P);
-        vmpi::World world; world.reduce_policy = reduce_policy; world.seed = seed;
+        vmpi::World world; world.reduce_policy = reduce_policy; world.seed = seed; world.mlog_enabled = g_msg; g_den = in.den;
         auto errs = vmpi::run(world, P, [&](int r) {
             Built<Graph> b;
             outs[(size_t) r].layout_ok = build_with_layout(in, b, r + 1, perms[(size_t) r], node_size);
@@ -86,6 +105,22 @@ template<class Graph> struct MpiRun {
         bool layout_ok = true; for (auto &o : outs) layout_ok = layout_ok && o.layout_ok;
         std::ostringstream meta; meta << "{\"P\":" << P << ",\"layout\":\"" << layout << "\",\"seed\":" << seed << ",\"reduce\":" << reduce_policy << ",\"collectives\":" << world.collectives << "}";
         if (!layout_ok) { emit(J().s("e", "LayoutError").s("algo", algo).i("id", in.id).raw("meta", meta.str()).str()); return; }
+        if (g_msg) {
+            // message-level trace: Run (graph, forest index, rank 0's output, per-rank termination) ; Coll* (in completion order) ; End
+            Built<Graph> hb; build(in, hb);
+            parmcb::ForestIndex<Graph> fi(hb.g);
+            std::vector<long> rev; for (size_t i = 0; i < m; i++) rev.push_back(hb.idx(fi(i)));
+            std::vector<std::string> cyc;
+            for (auto &cy : outs[0].cycles) { std::ostringstream o; o << "["; for (size_t q = 0; q < cy.size(); q++) o << (q ? "," : "") << cy[q]; o << "]"; cyc.push_back(o.str()); }
+            std::vector<std::string> ranks;
+            for (int r = 0; r < P; r++) ranks.push_back(J().i("rank", r).b("returned", errs[(size_t) r].empty()).s("err", errs[(size_t) r]).i("ncyc", (long) outs[(size_t) r].cycles.size()).str());
+            long ri, fr; scaled(outs[0].ret, in.den, ri, fr);
+            emit(J().s("e", "Run").s("algo", algo).s("variant", algo == "signed_mpi" ? "signed" : "trees").i("id", in.id).i("n", in.n).raw("edges", edges_json(in)).i("den", in.den).i("P", P)
+                    .arr("rev", rev).i("N", (long) fi.cycle_space_dimension()).arr("cycles", cyc).arr("ranks", ranks).i("ret", ri).i("frac", fr).raw("meta", meta.str()).str());
+            for (auto &c : world.mlog) emit(std::string("{\"e\":\"Coll\",") + c.substr(1));
+            emit(J().s("e", "End").i("colls", (long) world.mlog.size()).str());
+            return;
+        }
         J c; c.s("e", "Call").s("algo", algo).s("wt", wt).i("id", in.id).i("n", in.n).raw("edges", edges_json(in)).i("den", in.den).i("tol", 0).i("P", P).raw("meta", meta.str());
         emit(c.str());
         for (auto &cyc : outs[0].cycles) emit(J().s("e", "Emit").arr("cyc", cyc).str());
@@ -105,6 +140,7 @@ int main(int argc, char **argv) {
     int nseeds = atoi(arg_value(argc, argv, "--seeds", "2"));
     unsigned long seed0 = (unsigned long) atol(arg_value(argc, argv, "--seed", "1"));
     long start = atol(arg_value(argc, argv, "--start", "0"));
+    g_msg = has_flag(argc, argv, "--msg");
     if (!in || !out) return 2;
     g_out = fopen(out, start > 0 ? "a" : "w");
     if (!g_out) return 2;
